@@ -87,6 +87,8 @@ def body(rng, depth, maxlen):
 def program(rng):
     p = bytearray(body(rng, 0, rng.choice([2, 4, 8, 14])))
     r = rng.random()
+    wrap = rng.random() < 0.1          # an infinite loop around everything: addresses shift by 2, one LOOP_END behind
+    shift, behind = (2, 1) if wrap else (0, 0)
     if r < 0.12:
         # backward jump forming a time-consuming cycle (the body always ends in / contains a positive command)
         p = bytearray(timed_cmd(rng, positive=True)) + p
@@ -103,7 +105,18 @@ def program(rng):
         # truncated command at the very end
         c = timed_cmd(rng)
         p += c[:rng.randint(1, len(c))]
-    if rng.random() < 0.1:
+    elif r < 0.6:
+        # a jump in the middle whose target is the end of the program or beyond it (the next read yields END: what follows the
+        # jump never runs), or exactly the command behind the jump (a jump that changes nothing but the loop stack)
+        q = body(rng, 0, rng.choice([1, 2, 4]))
+        mode = rng.choice(["len", "len", "len+1", "far", "next"])
+        for w in (1, 2, 3):
+            total = shift + len(p) + 1 + w + len(q) + behind
+            a = {"len": total, "len+1": total + 1, "far": total + rng.choice([2, 64, 127, 128, 5000]), "next": shift + len(p) + 1 + w}[mode]
+            if len(varint(a)) == w:
+                p += bytes([JUMP]) + varint(a) + q
+                break
+    if wrap:
         # infinite loop around everything
         p = bytearray([LOOP_BEGIN, 0]) + p + bytearray([LOOP_END])
     return bytes(p)
